@@ -13,11 +13,14 @@ job = {"history": [op, ...], "probe": probe}
        {"op": "make_std" | "make_ext", "keep": bool}
        {"op": "load", "doc": json | None, "ref": int, "via": "class" | "instance" | "ext"}
        {"op": "nav", "text": str, "record": [int], "paths": [[[0, name] | [1, index], ...], ...], "keep": bool,
-        "dump": bool}
+        "dump": bool, "unp": "shared" | "new"}   shared = the one long-lived EBCDIC unpacker of the process
        {"op": "reread", "k": int} | {"op": "drop"} | {"op": "print", "k": int} | {"op": "csv", "rows": [[str]]}
+       {"op": "csv_schema", "cols": [str], "rows": [[str]]}   CSV without heading row + hand-written schema without
+                                                              position keywords, built from shared column sub-documents
  probe {"probe": "parse", "text": str, "via": "schema_iter" | "maker"}
        {"probe": "load", "doc": json}
-       {"probe": "read", "text": str, "record": [int], "paths": [...], "use_kept": bool}
+       {"probe": "read", "text": str, "record": [int], "paths": [...], "use_kept": bool, "unp": "shared" | "new"}
+       {"probe": "csv_read", "cols": [str], "rows": [[str]]}
 """
 import contextlib
 import gc
@@ -123,6 +126,9 @@ class Runtime:
         self.by_text = {}    # copybook text -> loaded schema used for navigation
         self.navs = []       # kept navigators (text, record, nav, unpacker, paths)
         self.std_makers, self.ext_makers = [], []
+        self.shared_unp = None   # the long-lived EBCDIC unpacker
+        self.coldocs = {}        # column name -> the ONE sub-document describing that column (shared between schemas)
+        self.csv_docs = {}       # tuple of column names -> (document, loaded schema) of a hand-written schema
         self.tmp = None
 
     # ---------------------------------------------------------------- helpers
@@ -275,14 +281,52 @@ class Runtime:
             out.append(v if ok else v[0])
         return out
 
-    def make_nav(self, text, record):
+    def make_nav(self, text, record, shared=True):
+        """shared: through the ONE long-lived unpacker of this process (as a sheet does for every row of a file);
+        otherwise through a new unpacker"""
         schema = self.schema_for(text)
         if schema is None:
             return None, None
-        unp = self.si.EBCDIC()
+        if shared:
+            if self.shared_unp is None:
+                self.shared_unp = self.si.EBCDIC()
+            unp = self.shared_unp
+        else:
+            unp = self.si.EBCDIC()
         self.mops.append([5])
         ok, nav = self.call(lambda: unp.nav(schema, self.si.BytesInstance(bytes(record))))
         return (nav, unp) if ok else (nav[0], unp)
+
+    def csv_schema(self, cols, rows):
+        """rows of a CSV file WITHOUT heading row, read through a hand-written schema that has no position keywords:
+        an object whose properties are the shared column sub-documents in the order of cols"""
+        from pathlib import Path
+        import csv
+        key = tuple(cols)
+        if key not in self.csv_docs:
+            for c in cols:
+                if c not in self.coldocs:
+                    self.coldocs[c] = {"title": c, "$anchor": c, "type": "string"}
+            doc = {"title": "layout " + " ".join(cols), "type": "object", "properties": {c: self.coldocs[c] for c in cols}}
+            res = self.load(doc, "class")
+            if not res[0]:
+                return res[1][0]
+            self.csv_docs[key] = (doc, res[1])
+        doc, schema = self.csv_docs[key]
+        self.mops.append([5])
+        p = Path(self.tmpdir()) / f"plain{len(self.mops)}.csv"
+        with p.open("w", newline="") as f:
+            csv.writer(f).writerows(rows)
+
+        def run():
+            out = []
+            with self.wb.CSV_Workbook(p) as book:
+                sheet = book.sheet("").set_schema(schema)
+                for row in sheet.row_iter():
+                    out.append([row.name(c).value() for c in cols])
+            return out
+        ok, v = self.call(run)
+        return v if ok else v[0]
 
     # ---------------------------------------------------------------- the history
     def do(self, op):
@@ -307,7 +351,7 @@ class Runtime:
                 doc = self.docs[op.get("ref", 0) % len(self.docs)]["doc"]
             self.load(doc, op.get("via", "class"))
         elif kind == "nav":
-            nav, unp = self.make_nav(op["text"], op["record"])
+            nav, unp = self.make_nav(op["text"], op["record"], op.get("unp", "shared") == "shared")
             if nav is None or isinstance(nav, str):
                 return
             self.read_all(nav, op["paths"])
@@ -351,6 +395,8 @@ class Runtime:
                     self.register_schema(sheet.schema, sheet.schema.json())
                 return out
             self.call(run)
+        elif kind == "csv_schema":
+            self.csv_schema(op["cols"], op["rows"])
         else:
             raise ValueError(f"unknown op {kind}")
 
@@ -377,12 +423,14 @@ class Runtime:
                         self.mops.append([5])
                         break
             if nav is None:
-                nav, _unp = self.make_nav(q["text"], q["record"])
+                nav, _unp = self.make_nav(q["text"], q["record"], q.get("unp", "shared") == "shared")
             if nav is None:
                 return ["read", "no schema"], [2]
             if isinstance(nav, str):
                 return ["read", "nav raised", nav], [2]
             return ["read", self.read_all(nav, q["paths"]), self.printed(nav.dump), self.printed(nav.schema.print)], [2]
+        if kind == "csv_read":
+            return ["csv_read", self.csv_schema(q["cols"], q["rows"])], [2]
         raise ValueError(f"unknown probe {kind}")
 
     def immut(self):
